@@ -146,7 +146,7 @@ def shell(nb, E, X, seed_delE=True):
     dk.__dict__['E_K'] = E.copy()
     dk.__dict__['nk'] = 1
     dk.__dict__['cell_volume'] = 8.0
-    dk.__dict__['UU_K'] = np.eye(nb)[None]
+    dk.random_gauge, dk._UU = False, np.eye(nb)[None]      # the real UU_K body runs and returns _UU
     dk.rvec = _Rvec(dk)
     if seed_delE:
         V = X[('Ham', 1)]
